@@ -26,10 +26,10 @@ impl Random for Rnd {
     fn get_rng(&self) -> RandomGen { unimplemented!() }
 }
 
-fn population(exploitation: bool) -> Rosomaxa<Ext, Obj, Sol> {
+fn population(exploitation: bool, elite_size: usize) -> Rosomaxa<Ext, Obj, Sol> {
     let objective = Arc::new(Obj);
     let random: Arc<dyn Random> = Arc::new(Rnd);
-    let config = RosomaxaConfig::new_with_defaults(4);          // elite_size 2
+    let config = RosomaxaConfig { elite_size, ..RosomaxaConfig::new_with_defaults(4) };
     Rosomaxa {
         external_ctx: Ext,
         objective: objective.clone(),
@@ -41,8 +41,8 @@ fn population(exploitation: bool) -> Rosomaxa<Ext, Obj, Sol> {
 }
 
 /// C08: after a batch the first ranked individual is no worse than the previous best and than EVERY individual of the batch
-fn batch<const B: usize>(with_previous: bool, exploitation: bool) {
-    let mut p = population(exploitation);
+fn batch<const B: usize>(with_previous: bool, exploitation: bool, elite_size: usize) {
+    let mut p = population(exploitation, elite_size);
     let prev = Sol { id: 100, key: kani::any(), w: [0.] };
     if with_previous { p.add(prev); }
     let xs: [Sol; B] = core::array::from_fn(|i| Sol { id: i as u8, key: kani::any(), w: [0.] });
@@ -54,7 +54,9 @@ fn batch<const B: usize>(with_previous: bool, exploitation: bool) {
     assert!(best == prev || xs.contains(&best), "post_no_invention");
     assert!(p.size() >= 1, "post_size_positive");
 }
-#[kani::proof] #[kani::unwind(8)] fn rosomaxa_initial_batch_3_from_one() { batch::<3>(true, false) }
-#[kani::proof] #[kani::unwind(8)] fn rosomaxa_initial_batch_3_from_empty() { batch::<3>(false, false) }
-#[kani::proof] #[kani::unwind(8)] fn rosomaxa_exploitation_batch_3_from_one() { batch::<3>(true, true) }
-#[kani::proof] #[kani::unwind(8)] fn rosomaxa_initial_batch_1_from_one() { batch::<1>(true, false) }
+// (a batch larger than the elite is the interesting case; elite_size 1 with a batch of 2 keeps the instance small:
+//  batches of 3 with the default elite_size 2 need > 10 GB in CBMC)
+#[kani::proof] #[kani::unwind(6)] fn rosomaxa_initial_batch_2_elite_1_from_one() { batch::<2>(true, false, 1) }
+#[kani::proof] #[kani::unwind(6)] fn rosomaxa_initial_batch_2_elite_1_from_empty() { batch::<2>(false, false, 1) }
+#[kani::proof] #[kani::unwind(6)] fn rosomaxa_exploitation_batch_2_elite_1_from_one() { batch::<2>(true, true, 1) }
+#[kani::proof] #[kani::unwind(6)] fn rosomaxa_initial_single_add_elite_2_from_one() { batch::<1>(true, false, 2) }
